@@ -72,6 +72,10 @@ def generate(seed, tier, k):
         mesh = gen.gen_mesh(r, dim=2, allow=("linear", "quadratic", "full"), max_cells=6)
         fkind = "Axi"
         doc["items"] = [{"type": "SolidBody", "umat": {"name": r.choice(["NeoHooke", "NeoHookeCompressible"]), "p": {"mu": mu, "bulk": round(5 * mu, 3), "lmbda": round(4 * mu, 3)}}}]
+        if gen.kpick(seed, "axi-scale", 4) == 0:
+            # a nano-scale model in SI-like units: radii of 1e-9, moduli such that forces stay of order
+            # one (applied at the end, after the ramp has been drawn in the unit-sized model)
+            doc["axi_units"] = {"L": 1e-9, "S": 1e18}
     doc["mesh"] = mesh
     doc["field"] = {"kind": fkind}
     case = r.choice(["uniaxial", "uniaxial", "shear", "custom"]) if fkind != "Axi" else r.choice(["uniaxial", "custom"])
@@ -97,6 +101,16 @@ def generate(seed, tier, k):
     if mode == "condensed" and r.random() < 0.3:
         doc["faults"].append({"kind": "solver_inexact", "rel": r.choice([1e-10, 1e-6, 1e-4]), "seed": r.randrange(1000)})
     doc["c10"] = {"mode": mode, "restart": mode == "condensed" and r.random() < 0.4, "probe_seed": r.randrange(1 << 30), "unrelated_dual": r.choice([None, None, False, True])}
+    if doc.get("axi_units"):
+        L_, S_ = doc["axi_units"]["L"], doc["axi_units"]["S"]
+        mesh["a"] = [v * L_ for v in mesh["a"]]
+        mesh["b"] = [v * L_ for v in mesh["b"]]
+        pp = doc["items"][0]["umat"]["p"]
+        for key_ in ("mu", "bulk", "lmbda"):
+            pp[key_] = pp[key_] * S_
+        for rr_ in doc["steps"][0]["ramp"]:
+            rr_["values"] = [float(v * L_) for v in rr_["values"]]
+        return doc
     return gen.maybe_units(doc)
 
 
@@ -483,7 +497,10 @@ def run_axi(doc, log):
     rec = eng.callbacks[-1]
     u = rec["x"][0].copy()
     # a state off equilibrium so that the forces are not all zero
-    u = u + 0.01 * rng.normal(size=u.shape) * (w.mesh.points[:, [1]] > 1e-12)
+    Lu = float((doc.get("axi_units") or {}).get("L", 1.0))
+    Su = float((doc.get("axi_units") or {}).get("S", 1.0))
+    Fu = Su * Lu * Lu  # force unit
+    u = u + 0.01 * Lu * rng.normal(size=u.shape) * (w.mesh.points[:, [1]] > 1e-12 * Lu)
     w.set_values([u])
     check_kinematics_buffers(w, um, log, "axisymmetric-energy")
     body = fem.SolidBody(um, w.field)
@@ -494,7 +511,7 @@ def run_axi(doc, log):
     Fx = w.field.extract()[0]
     P = um.gradient([Fx, np.zeros((0,) + Fx.shape[-2:])])[0]
     Pkeep = P.copy()
-    sc_ = float(np.abs(f).max()) + 1e-9
+    sc_ = float(np.abs(f).max()) + 1e-9 * Fu
     for n_ in range(3):
         fn = fem.IntegralForm([P], v=w.field, dV=w.region.dV).assemble().toarray().reshape(u.shape)
         if not np.array_equal(P, Pkeep, equal_nan=True):
@@ -508,14 +525,16 @@ def run_axi(doc, log):
     for _ in range(4):
         p = int(rng.integers(u.shape[0]))
         cidx = int(rng.integers(2))
-        h = 1e-6
+        h = 1e-6 * Lu
         up = u.copy()
         um_ = u.copy()
         up[p, cidx] += h
         um_[p, cidx] -= h
         g = (energy(up) - energy(um_)) / (2 * h)
-        sc = float(np.abs(f).max()) + 1e-9
-        if abs(g - f[p, cidx]) > 1e-5 * sc + 1e-8:
+        if not (np.isfinite(g) and np.isfinite(f[p, cidx])):
+            raise Discard("axisymmetric-probe-state-outside-domain")
+        sc = float(np.abs(f).max()) + 1e-9 * Fu
+        if abs(g - f[p, cidx]) > 1e-5 * sc + 1e-8 * Fu:
             raise Violation(PROP, "axisymmetric-energy", f"axisymmetric nodal force {f[p, cidx]:.8e} differs from the derivative of the 2 pi R weighted energy {g:.8e} (point {p}, component {cidx})", site="FieldAxisymmetric.vector")
         log.count("axisymmetric-energy-compared")
     return eng
